@@ -15,7 +15,30 @@ ASSUMPTIONS = [
     'callers are verified against callee contracts, not bodies; each replaced callee is listed per unit and is itself a unit',
 ]
 
-PROPERTY_META = {}
+NC_MUL = ('multiplication, squaring, division and everything built on them (bn_mul*, bn_sqr*, bn_div*, bn_mod*, Karatsuba/Comba variants): '
+          'digit products are not decidable by the installed back ends (DESIGN 2 P7, P21)')
+PROPERTY_META = {
+    'C01': dict(not_covered=NC_MUL + '; the 64-bit digit width for the API layer (verified at WSIZE=8, BN_PRECI=32: same sources, RLC_BN_SIZE=10; '
+                'only the digit loops bn_addn/subn/lsh1_low are additionally proved for all lengths in the shipped configuration); GMP/asm back ends; ALLOC=DYNAMIC',
+                assumptions=['memcpy(p,p,n) leaves the bytes unchanged (bn_lsh/bn_rsh copy in place through dv_copy)',
+                             'util_bits_dig on x86-64 is the lzcnt instruction behind a function pointer: its contract is enforced on the ARCH=none table implementation only']),
+    'C02': dict(not_covered='multiplication, squaring, Montgomery/special reduction, inversion, exponentiation, roots, Legendre symbol, conversions, fp_hlvd_low, '
+                'agreement between algorithm variants: number-theoretic identities modulo p outside the back ends (DESIGN 5 C02); other field sizes than the shipped 256 bits',
+                assumptions=['fp_prime_get() is replaced by a contract returning a ghost modulus: odd, > 2, of the configured digit length - every such p, not only primes']),
+    'C07': dict(not_covered='text conversion (bn_read_str/bn_write_str: needs division), field/extension-field/point/target-group encoders and decoders, compression; '
+                'bn_write_bin is verified at 8-bit digits only (64-bit: time-out), bn_read_bin at both'),
+    'C08': dict(not_covered='everything that is not a unit of C01/C02/C07/C09/C15 (curve, pairing, protocol and hash modules, simultaneous/batch functions, recodings other than '
+                'bn_rec_win, md_hmac/kdf/xmd, cp_ecies_dec); ALLOC=DYNAMIC allocation-failure points; pointer arithmetic that leaves the object without a dereference is not flagged'),
+    'C09': dict(not_covered='every modular / number-theoretic function and every recoding except bn_rec_win (bn_rec_slw/naf/tnaf/reg/jsf/glv/sac/frb): '
+                'their correctness rests on division/multiplication or was not reached'),
+    'C15': dict(not_covered='SHA-256 itself and hash_df values (the hash is abstract: uninterpreted for the generate path, frame-only for (re)seeding); '
+                'the output block framing of rand_gen; termination of bn_rand_mod; agreement with the CAVS vectors is the test-suite\'s job',
+                assumptions=['reseed counter < 2^31 - 600 (the int counter does not overflow)', 'bn_mod_basic: ASSUMED contract |result| < |modulus| (division not verified)']),
+    'C19': dict(not_covered='control transfer after longjmp (handler body, finaliser on the exceptional path, rethrow chains): setjmp returning twice is not modelled by CBMC; '
+                'per-thread contexts (MULTI build); re-parameterisation equals fresh initialisation'),
+    'C20': dict(not_covered='the ladder / regular-recoding scalar multiplications and exponentiations (ep_mul_monty, bn_mxp_monty, fp_exp_monty, ep_mul_lwreg, ...); '
+                'memory-address traces and what the compiler does to the source; goto-level branches only (a pure ?: or comparison expression counts as a select)'),
+}
 
 _units = []
 
